@@ -116,6 +116,7 @@ package memfs
 //@   modifies nothing
 
 //@ func (*fileNode).truncate
+//@   requires wheld(fn.mu)
 //@   requires size >= 0 && size < 4611686018427387904
 //@   modifies fn.data, fn.data[*]
 //@   ensures[C02] len(fn.data) == size
@@ -123,6 +124,7 @@ package memfs
 //@   ensures[C02] forall i int :: len(old(fn.data)) <= i && i < size ==> fn.data[i] == 0
 
 //@ func (*fileNode).size
+//@   requires held(fn.mu)
 //@   ensures[C02] r0 == len(fn.data)
 //@   modifies nothing
 
@@ -134,6 +136,7 @@ package memfs
 // ---- memfs_internal.go: permission checks and creation formulas (C03) --------------------------
 
 //@ func (*baseNode).checkPermission
+//@   requires held(bn.mu)
 //@   mode bv
 //@   requires u != nil
 //@   let cls := bn.uid == u.Uid() ? avfs.OpenMode(bn.mode) >> 6 : (bn.gid == u.Gid() ? avfs.OpenMode(bn.mode) >> 3 : avfs.OpenMode(bn.mode))
@@ -142,16 +145,19 @@ package memfs
 //@   modifies nothing
 
 //@ func (*baseNode).setModTime
+//@   requires wheld(bn.mu)
 //@   requires u != nil
 //@   ensures[C03] r0 == (bn.uid == u.Uid() || u.IsAdmin())
 //@   ensures[C03] !r0 ==> bn.mtime == old(bn.mtime)
 //@   modifies bn.mtime
 
 //@ func (*baseNode).setOwner
+//@   requires wheld(bn.mu)
 //@   ensures[C03] bn.uid == uid && bn.gid == gid
 //@   modifies bn.uid, bn.gid
 
 //@ func (*dirNode).setMode
+//@   requires wheld(dn.mu)
 //@   mode bv
 //@   requires u != nil
 //@   ensures[C03] r0 == (dn.uid == u.Uid() || u.IsAdmin())
@@ -160,6 +166,7 @@ package memfs
 //@   modifies dn.mode
 
 //@ func (*fileNode).setMode
+//@   requires wheld(fn.mu)
 //@   mode bv
 //@   requires u != nil
 //@   ensures[C03] r0 == (fn.uid == u.Uid() || u.IsAdmin())
@@ -196,8 +203,16 @@ package memfs
 //@   trusted
 //@   modifies nothing
 
+// ---- lock discipline (C08): which mutex guards which field --------------------------------------
 //@ type dirNode
 //@   guarded_by mu: children
+//@ type baseNode
+//@   guarded_by mu: mtime mode uid gid
+//@ type fileNode
+//@   guarded_by mu: data nlink
+//@   immutable id
+//@ type symlinkNode
+//@   guarded_by mu: link
 
 // The error table distinguishes "found" from every other outcome (true for both OS tables).
 //@ pred errsOK(v *MemFS) := v.err.FileExists != nil && v.err.NoSuchDir != nil && v.err.NoSuchFile != nil && v.err.NotADirectory != nil && v.err.PermDenied != nil && v.err.TooManySymlinks != nil && v.err.FileExists != v.err.NoSuchDir && v.err.FileExists != v.err.NoSuchFile && v.err.FileExists != v.err.NotADirectory && v.err.FileExists != v.err.PermDenied && v.err.FileExists != v.err.TooManySymlinks
@@ -230,3 +245,17 @@ package memfs
 //@   modifies dn.children[*]
 //@   ensures[C05] !dom(dn.children, name)
 //@   ensures[C05] forall n string :: n != name ==> dom(dn.children, n) == old(dom(dn.children, n)) && dn.children[n] == old(dn.children[n])
+
+//@ func (*fileNode).delete
+//@   requires wheld(fn.mu)
+//@   ensures[C05] fn.nlink == old(fn.nlink) - 1
+//@   modifies fn.nlink, fn.data
+//@ func (*dirNode).delete
+//@   requires wheld(dn.mu)
+//@   modifies dn.children
+//@ func (*symlinkNode).delete
+//@   requires wheld(sn.mu)
+//@   modifies sn.link
+//@ func (*dirNode).size
+//@   requires held(dn.mu)
+//@   modifies nothing
